@@ -43,6 +43,10 @@ def cases(seed, tier):
                                     nontopo=(k % 11 == 5))
         while trees.total_comps(st) > 16:
             st = trees.random_structure(rng, kind=kinds[k % len(kinds)], max_branches=5, max_cells=2, nmax=3)
+        if k % 12 in (7, 11):
+            st = trees.point_network(rng, mixed=(k % 12 == 11))
+            while trees.total_comps(st) > 16:
+                st = trees.point_network(rng, mixed=(k % 12 == 11))
         nc = trees.total_comps(st)
         p = trees.passive_params(rng, nc, hetero=(k % 4 != 0))
         out.append({"struct": st, "params": p, "stim": [float(x) for x in rng.uniform(-2, 2, nc)],
